@@ -44,7 +44,7 @@ type Source struct {
 
 // Build runs a single real node through the given steps and returns its
 // snapshot store. Steps: "w<k>" k write requests, "snap" user snapshot,
-// "reap" manual reap, "big" one large-blob write.
+// "reap" manual reap, "big" one large-blob write, "huge" one 270-300 KB row.
 func Build(s *sim.Sim, steps []string, seed uint64, knobs node.Knobs) (*Source, error) {
 	c := s.C
 	r := core.NewRand(core.Mix(seed, 0xb11d))
@@ -116,10 +116,22 @@ func Build(s *sim.Sim, steps []string, seed uint64, knobs node.Knobs) (*Source, 
 			if err := write(true); err != nil {
 				return nil, fmt.Errorf("write: %w", err)
 			}
+		case st == "huge":
+			// one row larger than the transport's 256 KiB buffers: the stream then
+			// spans several bufio flushes and several compressor chunks
+			rows++
+			if err := exec(fmt.Sprintf("INSERT INTO t(k,v,b) VALUES(%d,'huge',x'%s')", r.Intn(1000), hex.EncodeToString(r.Bytes(r.Range(270000, 300000))))); err != nil {
+				return nil, fmt.Errorf("write: %w", err)
+			}
 		case st == "snap":
 			var err error
 			if !s.Do("snapshot", 120*time.Second, func() { err = n.Store.Snapshot(0) }) {
 				return nil, fmt.Errorf("snapshot did not finish")
+			}
+			if err != nil && (strings.Contains(err.Error(), "no WAL data available") || strings.Contains(err.Error(), "nothing new to snapshot")) {
+				// the writes since the last snapshot did not change the database
+				c.Probe("build_snapshot_skipped")
+				continue
 			}
 			if err != nil {
 				return nil, fmt.Errorf("snapshot: %w", err)
